@@ -12,10 +12,10 @@ TRACE_CFG = "SPECIFICATION TraceSpec\nCHECK_DEADLOCK FALSE\nCONSTANTS\n  Deltas 
 def run(tier):
     ck = CheckRun("C18", tier, rule=(
         "every public operation (9 reductions, size, transform, agg, apply, median, quantile, cumsum/cummin/cummax/cumcount, "
-        "rolling sum/mean/min/max, shift, diff, ema plain and time-weighted, head/tail/nth with and without the input index, "
+        "rolling sum/mean/min/max, shift, diff, ema plain and time-weighted (row and group-sorted layouts), head/tail/nth with and without the input index, "
         "ratio, subset_ratio, density, group_nearby_members, facade aggregations) x each array argument (values, an element of "
         "a collection, boolean mask, timestamps, second values, subset mask) x length off by -2..+2 x pandas index identical / "
-        "permuted / shifted / duplicated / absent: the whole domain is executed; the outcome (return / any exception) is "
+        "permuted / shifted / duplicated / absent x the other arguments as Series or plain arrays x float / datetime / tz-aware values: the whole domain is executed; the outcome (return / any exception) is "
         "replayed through GBValidate's pipeline."))
     ck.mc("GBValidate", MC.format(l="FALSE", i="FALSE"), "pipeline", workers=2)
     ck.mc_bg("GBValidate", MC.format(l="TRUE", i="FALSE"), "neg_no_length_check", expect="MisalignedRejected", workers=1)
@@ -24,7 +24,7 @@ def run(tier):
     cases = validate.all_cases()
     traces = ck.drive(validate.run_case, cases, warm_cases=[], procs=16)
     rej = ck.validate("Trace_GBValidate", traces, TRACE_CFG.format(l="FALSE", i="FALSE") + "INVARIANT TraceInv\n", "outcomes",
-                      nontrivial=lambda t: t["delta"] != 10 or t["idxrel"] not in ("identical", "none"), key=lambda t: json.dumps([t["op"], t["arg"], t["delta"], t["idxrel"]]))
+                      nontrivial=lambda t: t["delta"] != 10 or t["idxrel"] not in ("identical", "none"), key=lambda t: json.dumps([t["op"], t["arg"], t["delta"], t["idxrel"], t.get("cfg")]))
     dev = {"C18-length-not-checked": TRACE_CFG.format(l="TRUE", i="FALSE"), "C18-index-not-checked": TRACE_CFG.format(l="FALSE", i="TRUE")}
     ck.judge(rej, "Trace_GBValidate", dev)
     ck.exhaustive = True
